@@ -140,6 +140,8 @@ def real_traces(groups, rng, tier, modes=('keygen', 'std', 'safe'), kms=None):
                     continue
                 v = variants[(n + gi + g['sid']) % len(variants)]
                 jobs.append((g, km, mode, v))
+                if g.get('shared'):
+                    jobs.append((g, km, mode, dict(v, shared=True)))
                 # the same group as a functools.partial that binds the defaulted keyword-only parameter, as a method
                 # (ignore=('self', ...)), and with a single-element ignore specification passed bare
                 rot = (n + gi) % (1 if tier == 'thorough' else 4) == 0
@@ -178,6 +180,7 @@ def signature(t, v, pid):
             # some call of this group passes an extra keyword that has the name of a positional-only parameter
             'posonly_keyword': bool(ponames) and any(it['n'] in ponames for x in t['events'][:v[0]] for it in x['call']['k']),
             'mode': t['meta']['mode'], 'ignore': t['meta']['ignore'], 'callable': t['meta'].get('kind', 'plain'),
+            'shared_objects': bool((t['meta'].get('variant') or {}).get('shared')), 'serializer': (t['meta'].get('variant') or {}).get('serializer'),
             'bare_ignore': bool(t['meta'].get('bare')),
             # the whole key is one bare positional value (variadic-only signature, one positional, no keyword)
             'lone_positional': not t['sig']['pos'] and not t['sig']['ko'] and len(e['call']['p']) == 1 and not e['call']['k'],
@@ -290,13 +293,15 @@ def check_generic(pid, tier, igns, modes=('keygen', 'std', 'safe'), pvals=None, 
     # small focused catalogues (their groups meet every flat keymap configuration, also in the quick tier)
     for over in extras:
         c2 = dict(base_consts(tier, igns), Deviations=set())
-        c2.update(over)
+        c2.update({k: v for k, v in over.items() if k != 'shared'})
         gx, stx = tlc_catalogue(c2, work)
         cat_states += stx
         for g in gx:
             g['allkms'] = True
             if 'self' in over.get('KwNames', ()):
                 g['plainonly'] = True
+            if over.get('shared'):
+                g['shared'] = True
         groups += gx
     # real side, in batches of groups (a thorough run has tens of thousands of traces)
     acc = {}
@@ -329,6 +334,8 @@ def extra_for_C01(rep, tier):
             g['allkms'] = True
             if 'self' in over.get('KwNames', ()):
                 g['plainonly'] = True
+            if over.get('shared'):
+                g['shared'] = True
         groups += gx
     acc = {}
     step = 12 if tier == 'thorough' else max(1, len(groups))
@@ -345,7 +352,9 @@ def extra_for_C01(rep, tier):
 def check_C09(tier):
     # extra: keyword arguments that are called like the parameters of klepto's own functions (self, func, ignored)
     return check_generic('C09', tier, {0}, pvals=None if tier == 'thorough' else {1, 5},
-                         extras=[dict(SigIds={25, 28, 30}, PVals={1, 2}, KwNames={'self', 'func', 'ignored'}, MAXP=1, MAXK=1)])
+                         extras=[dict(SigIds={25, 28, 30}, PVals={1, 2}, KwNames={'self', 'func', 'ignored'}, MAXP=1, MAXK=1),
+                                 # equal argument values that are one object / separate objects (floats, long strings)
+                                 dict(SigIds={2, 4}, PVals={3, 8}, KwNames={'y'}, MAXP=2, MAXK=1, shared=True)])
 
 
 def check_C10(tier):
